@@ -232,7 +232,7 @@ def report_rules(ctx, rows, flags, wit):
 def e2e_search(ctx):
     from props import c05_e2e as E
     deep = (not ctx.quick()) or bool(ctx.failed_stages)
-    n_clean, n_all = (400, 150) if deep else (80, 40)
+    n_clean, n_all = (200, 100) if deep else (80, 40)
     stats = {}
     # (i) all known defect families avoided: any mismatch is a new finding
     seen = set()
